@@ -403,8 +403,109 @@ fn run_waves(rng: &mut Rng, fam: &str, id: &str) {
     reset();
 }
 
+/// size of the bounded space `exh` enumerates for the groups (see `run_exh_group`)
+const EXHG_SPACE: u64 = 2 * 125 * 32768;
+
+/// profile `exh` for FutureGroup / StreamGroup: bounded-exhaustive enumeration.  Case number `k` is
+/// decoded into
+///   plain | keyed,
+///   three member scripts, each one of five (futures: Ready | Pending,Ready | Pending+self-wake,Ready |
+///     Pending,Pending,Ready | never;  streams: End | item,End | Pending,item,End |
+///     Pending+self-wake,item,End | never),
+///   a history of 5 operations over {insert the next member, remove(key of the 1st insert), remove(key
+///   of the 2nd insert), poll with a fresh waker, poll with the same waker, fire(0,0), fire(1,0),
+///   extend with the next two members (FutureGroup) / reserve(2) (StreamGroup)}, then drop.
+/// An insert / extend when the three members are used up is a poll with a fresh waker.
+/// The case is executed through the replay path (the history is fixed in advance).
+#[cfg(feature = "cfg-alloc")]
+fn run_exh_group(stream: bool, id: &str, k: u64) {
+    let mut x = (k % EXHG_SPACE).wrapping_mul(2_654_435_761) % EXHG_SPACE;
+    let mut digit = |base: u64| -> u64 {
+        let d = x % base;
+        x /= base;
+        d
+    };
+    let keyed = digit(2) == 1;
+    let mut scripts: Vec<(usize, Vec<Step>)> = vec![];
+    for c in 0..3usize {
+        let code = digit(5);
+        let p = |selfwake: bool| Step { res: Res::Pend, fires: if selfwake { vec![(c, 0)] } else { vec![] } };
+        let st: Vec<Step> = if stream {
+            let item = Step { res: Res::Item(c * 100 + 1), fires: vec![] };
+            let fin = Step { res: Res::Fin, fires: vec![] };
+            match code {
+                0 => vec![fin],
+                1 => vec![item, fin],
+                2 => vec![p(false), item, fin],
+                3 => vec![p(true), item, fin],
+                _ => vec![p(false)],
+            }
+        } else {
+            let r = Step { res: Res::Ready(true, c * 100 + 1), fires: vec![] };
+            match code {
+                0 => vec![r],
+                1 => vec![p(false), r],
+                2 => vec![p(true), r],
+                3 => vec![p(false), p(false), r],
+                _ => vec![p(false)],
+            }
+        };
+        scripts.push((c, st));
+    }
+    let mut ops: Vec<String> = vec![];
+    let mut next_child = 0usize;
+    let mut w = 0usize;
+    for _ in 0..5 {
+        let mut fresh_poll = |ops: &mut Vec<String>| {
+            w += 1;
+            ops.push(format!("p {w}"));
+        };
+        match digit(8) {
+            0 => {
+                if next_child < 3 {
+                    ops.push(format!("i {next_child}"));
+                    next_child += 1;
+                } else {
+                    fresh_poll(&mut ops);
+                }
+            }
+            1 => ops.push("r 0".into()),
+            2 => ops.push("r 1".into()),
+            3 => fresh_poll(&mut ops),
+            4 => {
+                if w == 0 {
+                    w = 1;
+                }
+                ops.push(format!("p {w}"));
+            }
+            5 => ops.push("f 0 0".into()),
+            6 => ops.push("f 1 0".into()),
+            _ => {
+                if stream {
+                    ops.push("v 2".into());
+                } else if next_child + 1 < 3 {
+                    ops.push(format!("e {},{}", next_child, next_child + 1));
+                    next_child += 2;
+                } else if next_child < 3 {
+                    ops.push(format!("e {next_child}"));
+                    next_child += 1;
+                } else {
+                    fresh_poll(&mut ops);
+                }
+            }
+        }
+    }
+    ops.push("d".into());
+    let model_fam = if stream { "strGroup" } else { "futGroup" };
+    let header = format!("CASE {id} {model_fam} {MODE} {} 0 group new", if keyed { 1 } else { 0 });
+    replay_one(&header, &scripts, &ops);
+}
+
 /// size of the bounded space `exh` enumerates for a family (see `run_exh`)
 fn exh_space(fam: &str) -> u64 {
+    if fam == "fgroup" || fam == "sgroup" {
+        return EXHG_SPACE;
+    }
     let per_child: u64 = if matches!(fam, "merge" | "zip" | "chain") { 7 * 4 } else { 7 * 3 };
     // container kind (2) x n in {1, 2} x scripts x histories of 5 ops over an alphabet of 5
     2 * (per_child + per_child * per_child) * 3125
@@ -1778,7 +1879,7 @@ fn main() {
     let args: Vec<String> = std::env::args().collect();
     std::panic::set_hook(Box::new(|_| {}));
     // a case that stops making progress (deadlock) is printed as far as it got and ends the run
-    start_watchdog(std::env::var("FC_WATCHDOG_SECS").ok().and_then(|s| s.parse().ok()).unwrap_or(10));
+    start_watchdog(std::env::var("FC_WATCHDOG_SECS").ok().and_then(|s| s.parse().ok()).unwrap_or(30));
     if args.get(1).map(|s| s.as_str()) == Some("replay") {
         replay();
         return;
@@ -1809,6 +1910,10 @@ fn main() {
         let fam = fams[k % fams.len()].clone();
         let id = format!("{cfg}-{pname}-{fam}-{seed}-{k}");
         match fam.as_str() {
+            "fgroup" | "sgroup" if prof.is("exh") => {
+                #[cfg(feature = "cfg-alloc")]
+                run_exh_group(fam == "sgroup", &id, seed.wrapping_mul(count as u64).wrapping_add(k as u64) / fams.len() as u64);
+            }
             "fgroup" | "sgroup" => {
                 #[cfg(feature = "cfg-alloc")]
                 run_group(&mut rng, fam == "sgroup", &id, &prof);
